@@ -39,6 +39,26 @@ func GenCase(t *rapid.T, mode string) Case {
 		if mode == "enum" && k >= 82 {
 			k = k % 20 // sequential histories only: faults and crash points are enumerated by the runner
 		}
+		if mode != "enum" && k >= 16 && k < 20 && c.Cfg.SaveMs <= 50 {
+			// physical time ahead of the wall clock (reset into the future), then sustained logical
+			// exhaustion: every tick steps the physical time by 1 ms, and after saveInterval ticks the
+			// stored window must have been extended; finally a take-over
+			to := mem()
+			c.Ops = append(c.Ops, Op{K: "settso", M: m, Rel: vkit.PickU(t, []string{"+1h", "gap-1", "+save"}, "aheadRel")})
+			for i := int64(0); i < c.Cfg.SaveMs+3; i++ {
+				c.Ops = append(c.Ops, Op{K: "gen", M: m, Count: 1<<17 + 1}, Op{K: "update", M: m})
+			}
+			c.Ops = append(c.Ops, Op{K: "gen", M: m, Count: 1})
+			for i := 0; i < c.Cfg.Members; i++ {
+				c.Ops = append(c.Ops, Op{K: "crash", M: i})
+			}
+			for i := 0; i < c.Cfg.Members; i++ {
+				c.Ops = append(c.Ops, Op{K: "restart", M: i, D: vkit.PickU(t, []int64{0, -3600_000, -1}, "roff3")})
+			}
+			c.Ops = append(c.Ops, Op{K: "campaign", M: to}, Op{K: "gen", M: to, Count: 1})
+			cur = to
+			continue
+		}
 		switch {
 		case k < 20:
 			c.Ops = append(c.Ops, Op{K: "gen", M: m, Count: vkit.PickU(t, counts, "count")})
